@@ -223,6 +223,43 @@ def check(run, F, tier):
             else:
                 r2.ok("%s/%s" % (key, n))
 
+    # ------------------------------------------------------------------ R4: configuration is the application's
+    # Configuration-scope fields are set by new() and the public setters only.  Any other method (a packet handler, close,
+    # a timer) may at most store the value the field already has on that path (`x = None` under `x.is_none()`).
+    r4 = run.rule("C10-R4", "configuration-scope fields are changed only by new() and the setters", floor=7)
+    # (protocol_version is configuration for a fixed-version endpoint but adopted from the first CONNECT by an undetermined
+    # server: its writers are C17-R4's subject)
+    cfg_fields = [n for n, sc in table.items() if sc == "configuration" and n in fields and n != "protocol_version"]
+    OPT_ = "std::option::Option"
+    for n in cfg_fields:
+        badw, writers = conn.offending_writers(F, n, {"new"})
+        offenders = sorted(w for w in writers if w != "new" and not w.startswith("set_")) if any(not w.startswith("set_") for w in badw) else []
+        problem = None
+        for w in offenders:
+            g = ms.get(w)
+            if g is None:
+                problem = (w, None, "written by %s" % w)
+                continue
+            for p, cur in N.post_values(g["path"]):
+                v = cur.get(n)
+                if v == ("FIELD", n):
+                    continue
+                # a store of the value the path already knows the field to hold
+                ft = conn.field_term(n, F)
+                c_ = p.cons.get(ft)
+                d_ = p.cons.get(("discr", ft, OPT_))
+                same = (v[0] == "CONST" and c_ == ("eq", v[1])) or (v == ("NONE",) and d_ == ("eq", 0))
+                if not same:
+                    problem = (w, p, "%s stores %s" % (w, v))
+                    break
+            if problem:
+                break
+        if problem:
+            r4.violation(n, "configuration field %s is changed outside new() / the setters: %s (the next connection inherits a value the application never chose)"
+                         % (n, problem[2]), conn.path_summary(problem[1]) if problem[1] is not None else None)
+        else:
+            r4.ok(n, {"writers": sorted(writers)})
+
     # ------------------------------------------------------------------ R3
     r3 = run.rule("C10-R3", "config fields of sub-structs compared as ('NEW', S) are written only by S::new", floor=2)
     subs = sorted({v[1] for v in newv.values() if v[0] == "NEW"})
